@@ -18,7 +18,8 @@ EXPLANATION = (
     'functions through the ExcelType dunders is guarded or converted; (C07.4) complete decision tables of '
     'ISERROR/ISERR/ISNA/NA and ISNUMBER/ISTEXT/ISBLANK over the error-class lattice and the value classes; (C07.5) the '
     'validate_args contract: arguments visited in signature order, an error argument returned before any conversion, '
-    'conversion and call wrapped in handlers that return the raised ExcelError.')
+    'conversion and call wrapped in handlers that return the raised ExcelError.'
+    ' (C07.6) operator nodes evaluate every operand on every evaluation and hand both values to the operator function (no value-dependent shortcut that could drop an error operand); (C07.4) is computed on real error/value instances and on texts that merely spell an error code.')
 NOT_DECIDED = ('value-level "leftmost error" for nested expressions; every function x position x code combination '
                'beyond what C07.1/C07.2/C07.5 make structural')
 TRUSTED = ['model of inspect.signature(...).bind: arguments in signature order']
